@@ -83,22 +83,32 @@ def parseCMode (s : String) : CMode :=
   | "1" => .identity
   | _ => .equality
 
-/-- factory table: `id:spec,…` with spec `e<v>` existing · `f<a.b.c>` fresh flat container ·
-`t<a.b>` fresh tuple whose first element is a fresh container of `a.b` and second the atom 0 · `r` raises -/
-def mkFactory (s : String) : Id → Callback Id FRes :=
-  let ents : List (Nat × String) := (fields s ",").filterMap fun e =>
+/-- factory table `k:spec,…` (callable id = 1000 + k) with spec
+`e<v>` existing atom · `f<a.b.c>` fresh flat container · `t<a>` fresh pair (fresh empty container, atom a) ·
+`r` raises.  An upper-case letter marks a factory the harness cannot instrument (its calls are not printed). -/
+def factoryBase : Nat := 1000
+
+def parseDots (s : String) : List Nat :=
+  if s = "" then [] else (s.splitOn ".").filterMap String.toNat?
+
+def factoryTable (s : String) : List (Nat × String) :=
+  if clean s = "-" then [] else
+  (fields s ",").filterMap fun e =>
     match e.splitOn ":" with
     | [i, sp] => (nat? i).map (·, sp)
     | _ => none
+
+def mkFactory (s : String) : Id → Callback Id FRes :=
+  let ents := factoryTable s
   fun f _ _ =>
-    match ents.find? (·.1 == f) with
+    match ents.find? (fun e => e.1 + factoryBase == f) with
     | none => .error .typeError
     | some (_, sp) =>
-      let body := (sp.drop 1).toString
-      let xs : List Nat := if body = "" then [] else (body.splitOn ".").filterMap String.toNat?
-      if sp.startsWith "e" then .ok (.existing (xs.headD 0))
-      else if sp.startsWith "f" then .ok (.fresh (xs.map .atom))
-      else if sp.startsWith "t" then .ok (.fresh [.inner xs, .atom noneId])
+      let xs := parseDots (sp.drop 1).toString
+      let c := (sp.take 1).toString.toLower
+      if c == "e" then .ok (.existing (xs.headD 0))
+      else if c == "f" then .ok (.fresh (xs.map .atom))
+      else if c == "t" then .ok (.fresh [.inner [], .atom (xs.headD 0)] true)
       else .error .runtimeError
 
 def mkEnv (pool handlers : List (String × String)) (validate : Nat → Callback Id Id)
@@ -185,9 +195,208 @@ def handleC02 (tf pf hf opsf : String) : String :=
     " ; ".intercalate (showTrace s0 (runTrace E t s0 ops))
   | _, _ => "bad-case"
 
+/-! ### C10 -/
+
+/-- Builder state while reading the class declarations. -/
+structure CB where
+  classes : List ClassRec := []
+  ctx : Ctx := {}
+
+def anyCore : TraitCore := { dvt := Generated.CONSTANT_DEFAULT_VALUE, dv := some noneId }
+
+/-- A member code → (member, own `_name_default`), allocating templates. -/
+def parseMember (code : String) (c : Ctx) : Option (Option Member × Ctx) :=
+  let two := (code.take 2).toString
+  let one := (code.take 1).toString
+  let rest1 := (code.drop 1).toString
+  let rest2 := (code.drop 2).toString
+  let copyKind (dvt : Nat) (v : Option Nat) (body : String) : Option (Option Member × Ctx) :=
+    let (i, c') := c.newContainer (parseDots body)
+    some (some (.trait { dvt := dvt, dv := some i, validate := v }), c')
+  if code == "i" then some (none, c)
+  else if code == "o" then
+    some (some (.trait { dvt := Generated.OBJECT_DEFAULT_VALUE, dv := none, validate := some 1 }), c)
+  else if two == "al" then copyKind Generated.LIST_COPY_DEFAULT_VALUE none rest2
+  else if two == "ad" then copyKind Generated.DICT_COPY_DEFAULT_VALUE none rest2
+  else if two == "fa" then
+    (rest2.toNat?).map fun k =>
+      (some (.trait { dvt := Generated.CALLABLE_AND_ARGS_DEFAULT_VALUE, dv := some (factoryBase + k) }), c)
+  else if two == "vl" || two == "vd" then
+    let (i, c') := c.newContainer (parseDots rest2)
+    some (some (.value i), c')
+  else if one == "c" then (rest1.toNat?).map fun v => (some (.trait { anyCore with dv := some v }), c)
+  else if one == "v" then (rest1.toNat?).map fun v => (some (.value v), c)
+  else if one == "L" then copyKind Generated.TRAIT_LIST_OBJECT_DEFAULT_VALUE (some 0) rest1
+  else if one == "D" then copyKind Generated.TRAIT_DICT_OBJECT_DEFAULT_VALUE (some 0) rest1
+  else if one == "S" then copyKind Generated.TRAIT_SET_OBJECT_DEFAULT_VALUE (some 0) rest1
+  else if one == "T" then
+    (rest1.toNat?).map fun k =>
+      (some (.trait { dvt := Generated.CALLABLE_DEFAULT_VALUE, dv := some (factoryBase + k), validate := some 0 }), c)
+  else if one == "U" then
+    (rest1.toNat?).map fun k =>
+      (some (.trait { dvt := Generated.CALLABLE_DEFAULT_VALUE, dv := some (factoryBase + k), validate := some 1 }), c)
+  else none
+
+/-- `name=member[~k][/hK]` -/
+def parseDecl (base : Option ClassRec) (s : String) (c : Ctx) : Option (Decl × Ctx) :=
+  match s.splitOn "=" with
+  | [n, rhs] =>
+    let (rhs1, hs) := match rhs.splitOn "/h" with
+      | [a, b] => (a, b.toNat?)
+      | _ => (rhs, none)
+    let (code, dflt) := match rhs1.splitOn "~" with
+      | [a, b] => (a, b.toNat?)
+      | _ => (rhs1, none)
+    match nat? n, parseMember code c with
+    | some name, some (m, c') =>
+      let inherited : List Nat := match base.bind (·.get name) with
+        | some ct => ((ct.ctrait.notifiers.getD []).filter (·.kind == .static)).map (·.h)
+        | none => []
+      let statics := match hs with
+        | some h => [h]
+        | none => inherited
+      some ({ name := name, member := m, default := dflt.map (factoryBase + ·), statics := statics }, c')
+    | _, _ => none
+  | _ => none
+
+def parseDecls (base : Option ClassRec) : List String → Ctx → Option (List Decl × Ctx)
+  | [], c => some ([], c)
+  | s :: ss, c =>
+    match parseDecl base s c with
+    | none => none
+    | some (d, c1) =>
+      match parseDecls base ss c1 with
+      | none => none
+      | some (ds, c2) => some (d :: ds, c2)
+
+def buildClasses (E : Env) : List String → CB → Option CB
+  | [], b => some b
+  | s :: ss, b =>
+    match s.splitOn ":" with
+    | [bs, ds] =>
+      let base : Option ClassRec := (nat? bs).bind (b.classes[·]?)
+      match parseDecls base (fields ds ",") b.ctx with
+      | none => none
+      | some (decls, c1) =>
+        match buildClass E base decls c1 with
+        | (.ok k, c2) => buildClasses E ss { classes := b.classes ++ [k], ctx := c2 }
+        | (.error _, _) => none
+    | _ => none
+
+def parseWOp (s : String) : Option WOp :=
+  match words s with
+  | ["new", k] => (nat? k).map .new
+  | ["get", i, n] => do pure (.get (← nat? i) (← nat? n))
+  | ["set", i, n, v] => do pure (.set (← nat? i) (← nat? n) (← nat? v))
+  | ["mut", i, n, x] => do pure (.mutate (← nat? i) (← nat? n) (← nat? x))
+  | ["mui", i, n, x] => do pure (.mutateInner (← nat? i) (← nat? n) (← nat? x))
+  | ["rd", i, n, h] => do pure (.regDyn (← nat? i) (← nat? n) (← nat? h))
+  | ["ro", i, n, h] => do pure (.regObs (← nat? i) (← nat? n) (← nat? h))
+  | ["ra", i, h] => do pure (.regAny (← nat? i) (← nat? h))
+  | ["at", i, n, code] =>
+    -- only members that allocate nothing: c<v>, fa<k>
+    match parseMember code {} with
+    | some (some (.trait t), _) => do pure (.addTrait (← nat? i) (← nat? n) t)
+    | _ => none
+  | _ => none
+
+/-- Render a value: pool atoms `p<k>`, everything else `@id@`, containers with their
+contents (atoms sorted, then inner containers), two levels deep. -/
+def showVal (N : Nat) (heap : List (Id × List Id)) (v : Id) : String :=
+  let tok (x : Id) : String := if x < N then s!"p{x}" else s!"@{x}@"
+  let flat (xs : List Id) : String :=
+    let atoms := ((xs.filter (· < N)).mergeSort (· ≤ ·)).map tok
+    let others := (xs.filter (fun x => !(x < N))).map fun x =>
+      match heapGet heap x with
+      | some ys => s!"{tok x}[{",".intercalate (((ys.filter (· < N)).mergeSort (· ≤ ·)).map tok ++ (ys.filter (fun y => !(y < N))).map tok)}]"
+      | none => tok x
+    ",".intercalate (atoms ++ others)
+  match heapGet heap v with
+  | some xs => s!"{tok v}[{flat xs}]"
+  | none => tok v
+
+def showInst (N : Nat) (w : World) (idx : Nat) (o : Inst) : String :=
+  let names : List Name := match w.classes[o.cls]? with
+    | some k => k.traits.map (·.1)
+    | none => []
+  let names := names.mergeSort (· ≤ ·)
+  let slots := names.map fun n =>
+    match assocGet o.dict n with
+    | some v => s!"{n}={showVal N w.ctx.heap v}"
+    | none => s!"{n}=-"
+  let its := ((o.itraits.map (·.1)).mergeSort (· ≤ ·)).map toString
+  let lens := names.map fun n => showLen ((w.traitOf o n).bind (·.notifiers))
+  s!"I{idx}({",".intercalate slots};it={".".intercalate its};n={".".intercalate lens};on={showLen o.on})"
+
+def showWorld (N : Nat) (w : World) : String :=
+  " ".intercalate ((w.insts.zipIdx).map fun p => showInst N w p.2 p.1)
+
+def showWStep (N : Nat) (silent : List Nat) (before : World) (r : Res × World) : String :=
+  let w := r.2
+  let head := match r.1.exc with
+    | some e => s!"err {e.name}"
+    | none => "ok"
+  let idxOf (oid : Id) : String :=
+    match w.insts.zipIdx.find? (fun p => p.1.oid == oid) with
+    | some p => toString p.2
+    | none => "?"
+  let val := match r.1.val with
+    | some v => showVal N w.ctx.heap v
+    | none => "-"
+  let calls := (w.ctx.log.drop before.ctx.log.length).map fun c =>
+    s!"{idxOf c.obj}:{c.h}:{showVal N w.ctx.heap c.old}>{showVal N w.ctx.heap c.new}"
+  let fc := ((w.ctx.fcalls.drop before.ctx.fcalls.length).map (fun f => f.1 - factoryBase)).filter
+    (fun k => !silent.contains k)
+  s!"{head} v={val} c=[{",".intercalate calls}] f=[{",".intercalate (fc.map toString)}] :: {showWorld N w}"
+
+def showWTrace (N : Nat) (silent : List Nat) : World → List (Res × World) → List String
+  | _, [] => []
+  | b, r :: rs => showWStep N silent b r :: showWTrace N silent r.2 rs
+
+/-- Replace `@id@` by `#k`, k = order of first appearance in the line. -/
+def renumber (s : String) : String :=
+  let parts := s.splitOn "@"
+  let rec go (ps : List String) (odd : Bool) (seen : List String) (acc : List String) : List String :=
+    match ps with
+    | [] => acc.reverse
+    | p :: rest =>
+      if odd then
+        match seen.findIdx? (· == p) with
+        | some i => go rest false seen (s!"#{i}" :: acc)
+        | none => go rest false (seen ++ [p]) (s!"#{seen.length}" :: acc)
+      else go rest true seen (p :: acc)
+  "".intercalate (go parts false [] [])
+
+def handleC10 (pf ff cf hf opsf : String) : String :=
+  let P := kvs pf
+  let N := (nat? (look P "n")).getD 3
+  let validate : Nat → Callback Id Id := fun k _ v =>
+    if v ≥ N then .ok v                       -- freshly built containers are accepted unchanged
+    else if k == 1 && v == noneId then .ok v
+    else .error .traitError
+  let ftab := look (kvs ff) "F"
+  let E : Env :=
+    { cmp := { eqv := fun a b => if a == b then .yes else .no, neq := fun a b => if a == b then .no else .yes }
+      validate := validate
+      post := fun _ _ _ => .ok ()
+      factory := mkFactory ftab
+      handler := mkHandlers (look (kvs hf) "H")
+      veto := fun _ => false
+      reraiseLegacy := false
+      reraiseObserve := false }
+  let silent := (factoryTable ftab).filterMap fun e =>
+    if (e.2.take 1).toString != (e.2.take 1).toString.toLower then some e.1 else none
+  match buildClasses E (fields ((cf.drop 2).toString) ";") { ctx := { alloc := N } },
+        (fields opsf ";").mapM parseWOp with
+  | some b, some ops =>
+    let w0 : World := { classes := b.classes, ctx := b.ctx }
+    renumber (" ; ".intercalate (showWTrace N silent w0 (World.runTrace E w0 ops)))
+  | _, _ => "bad-case"
+
 def handle (line : String) : String :=
   match (clean line).splitOn "|" with
   | ["a2", tf, pf, hf, ops] => handleC02 tf pf hf ops
+  | ["a10", pf, ff, cf, hf, ops] => handleC10 pf ff cf hf ops
   | _ => "bad-case"
 
 end TraitsVerif.Driver.Attr
